@@ -6,6 +6,9 @@ open NutsModel NutsModel.Drv
 def dispatch (t : Toks) : Verdict :=
   match NutsModel.Drv.C07.dispatch t with
   | some v => v
+  | none =>
+  match NutsModel.Drv.C01.dispatch t with
+  | some v => v
   | none => .bad s!"unknown record kind {t[0]?}"
 
 partial def loop (h : IO.FS.Stream) (st : Stats) : IO Stats := do
